@@ -409,6 +409,10 @@ func verifModel_context_WithCancel(parent context.Context) (context.Context, con
 	return c, func() { c.cancel() }
 }
 
+func verifModel_context_WithDeadline(parent context.Context, d time.Time) (context.Context, context.CancelFunc) {
+	return verifModel_context_WithCancel(parent)
+}
+
 // Timeouts do not fire inside the model; expiry of a dial is a dialer error.
 func verifModel_context_WithTimeout(parent context.Context, d time.Duration) (context.Context, context.CancelFunc) {
 	return verifModel_context_WithCancel(parent)
